@@ -1,7 +1,7 @@
 //! E2 cross-check for C10: the shipped binary, real threads, real pipes, real process exit statuses;
 //! a stand-in `vampire` on PATH that a coordinator drives (what it reads, what it prints, when it exits).
 //! Real threads and processes run, but the choice of which prover finishes next is the coordinator's, from the seed.
-use crate::e2::{Binaries, Env};
+use crate::e2::Binaries;
 use crate::exec::{self, Scratch};
 use crate::gen::{self, Case, Tier};
 use crate::oracle::Violation;
@@ -412,8 +412,13 @@ pub fn campaign(seed: u64, n: u64, thorough: bool, workers: usize, e2_only: bool
                 c1.run_flags.retain(|f| f != "--no-timing");
                 c1.run_flags.push("--no-timing".into());
                 c1.save_problems = false;
-                let run = exec::run_case(&c1, &prep, anthem_simrt::sched::SchedSpec::Calm { overrides: vec![] }, crate::c10::FIRST_BOUND, false, &mut scratch);
-                let (v1, f1) = crate::oracle::check(&c1, &prep, &run);
+                // (in a process of its own: the tree under test must not be able to take the driver down)
+                let e1 = crate::c10::try_in_fresh_process(
+                    &crate::c10::Replay { property: "C10".into(), seed, index: i, k: 0, case: c1.clone(), sched: anthem_simrt::sched::SchedSpec::Calm { overrides: vec![] }, max_steps: crate::c10::FIRST_BOUND, violation: Violation { class: String::new(), detail: String::new() }, digest: String::new(), note: String::new() },
+                    &mut scratch,
+                );
+                let e1_usable = !e1.violations.iter().any(|v| v.class == "abort" || v.class == "E1-inapplicable");
+                let v1 = e1.violations.clone();
                 let mut a = acc.lock().unwrap();
                 a.0.runs += 1;
                 a.0.grace_used += x.grace_used;
@@ -434,14 +439,14 @@ pub fn campaign(seed: u64, n: u64, thorough: bool, workers: usize, e2_only: bool
                 for v in &x.violations {
                     a.1.push(XReplay { property: "C10".into(), engine: "E2".into(), seed, cross_case: j, slow_case, case: case.clone(), violation: v.clone(), note: "shipped binary, real threads and pipes, stand-in prover driven by the coordinator; the release order is drawn from the seed, the timing inside one quiescent step is the operating system's".into() });
                 }
-                if x.violations.is_empty() && v1.is_empty() {
+                if x.violations.is_empty() && v1.is_empty() && e1_usable {
                     a.0.e1_e2_verdict_compared += 1;
-                    if f1.verdict != x.verdict {
-                        a.2.push(format!("case {j}: E1 verdict {:?} but E2 verdict {:?} although both oracles pass (model infidelity)", f1.verdict, x.verdict));
+                    if e1.verdict != x.verdict {
+                        a.2.push(format!("case {j}: E1 verdict {:?} but E2 verdict {:?} although both oracles pass (model infidelity)", e1.verdict, x.verdict));
                     }
                     if fault_free {
                         a.0.e1_e2_stdout_compared += 1;
-                        if sorted_lines(&run.result.sim.stdout) != sorted_lines(&x.stdout) {
+                        if sorted_lines(e1.stdout.as_bytes()) != sorted_lines(&x.stdout) {
                             a.2.push(format!("case {j}: E1 and E2 stdout differ as line multisets although both oracles pass (model infidelity)"));
                         }
                     }
